@@ -402,6 +402,28 @@ theorem range_guard_list (fs : List Fl) :
 example : fcst_range_rejected (nanMax [fin (1/2), nan, fin (5/4)]) (nanMin [fin (1/2), nan, fin (5/4)]) = true := by
   decide +kernel
 
+/-- **no tolerance at the end points**: ANY excursion below 0 or above 1, however small, hidden anywhere among
+    valid and missing values, is rejected (the guard is about exact values; a float implementation must therefore
+    reject the neighbours of 0 and 1 at the resolution limit of the storage format) -/
+theorem range_guard_no_tolerance (ε : Rat) (hε : 0 < ε) (fs : List Fl) (h : fin (-ε) ∈ fs ∨ fin (1 + ε) ∈ fs) :
+    fcst_range_rejected (nanMax fs) (nanMin fs) = true := by
+  rw [range_guard_list]
+  rcases h with h | h
+  · exact ⟨_, h, by simp, Or.inr (by simp only [Fl.lt, decide_eq_true_eq]; linarith)⟩
+  · exact ⟨_, h, by simp, Or.inl (by simp only [Fl.gt, Fl.lt, decide_eq_true_eq]; linarith)⟩
+
+/-- the neighbours of the end points in binary64 / binary32 storage, the smallest denormal, 0.3 − 0.1 − 0.2 as stored -/
+example : (0 : Rat) < 1 / 2 ^ 1074 := by positivity
+example : fcst_range_rejected (nanMax [fin (1/2), nan, fin (-(1 / 2 ^ 1074))]) (nanMin [fin (1/2), nan, fin (-(1 / 2 ^ 1074))]) = true := by
+  decide +kernel
+example : fcst_range_rejected (nanMax [fin (1 + 1 / 2 ^ 52), fin 0]) (nanMin [fin (1 + 1 / 2 ^ 52), fin 0]) = true := by decide +kernel
+example : fcst_range_rejected (nanMax [fin (1 + 1 / 2 ^ 23)]) (nanMin [fin (1 + 1 / 2 ^ 23)]) = true := by decide +kernel
+example : fcst_range_rejected (nanMax [fin (-(1 / 2 ^ 55))]) (nanMin [fin (-(1 / 2 ^ 55))]) = true := by decide +kernel
+example : fcst_range_rejected (nanMax [fin (-(1 / 2 ^ 149))]) (nanMin [fin (-(1 / 2 ^ 149))]) = true := by decide +kernel
+/-- … and their inward neighbours are accepted -/
+example : fcst_range_rejected (nanMax [fin (1 / 2 ^ 1074), fin (1 - 1 / 2 ^ 53), nan, fin 0, fin 1])
+    (nanMin [fin (1 / 2 ^ 1074), fin (1 - 1 / 2 ^ 53), nan, fin 0, fin 1]) = false := by decide +kernel
+
 private theorem le_eq_not_lt (a b : Fl) (ha : a.notNan = true) (hb : b.notNan = true) : Fl.le a b = !Fl.lt b a := by
   cases a <;> cases b <;> simp_all [Fl.le, Fl.lt, notNan, isNan]
   rw [← decide_not]; exact decide_eq_decide.mpr not_lt.symm
@@ -468,5 +490,10 @@ theorem brier_checked_accepted (fs os : List Fl) (w : Option (List Fl)) :
 
 example : Spec.Brier.accepted [fin (1/4), nan, fin 1] [fin 0, fin 1, nan] = true := by decide +kernel
 example : Spec.Brier.accepted [fin (5/4)] [fin 0] = false := by decide +kernel
+example : Spec.Brier.accepted [fin (1/4), fin (-(1 / 2 ^ 1074))] [fin 0, fin 1] = false := by decide +kernel
+example : Spec.Brier.accepted [fin (1 + 1 / 2 ^ 52)] [fin 1] = false := by decide +kernel
+example : Spec.Brier.accepted [fin (1 / 2 ^ 1074), fin (1 - 1 / 2 ^ 53)] [fin 0, fin 1] = true := by decide +kernel
+example : Spec.Brier.accepted [fin (1/2)] [fin (1 / 2 ^ 1074)] = false := by decide +kernel
+example : Spec.Brier.accepted [fin (1/2)] [fin (1 - 1 / 2 ^ 53)] = false := by decide +kernel
 
 end SV.Props.C13
